@@ -19,7 +19,7 @@ from fractions import Fraction
 
 sys.set_int_max_str_digits(0)
 OPS = ("+", "-", "*", "/", "**", "//", "%")
-EXACT_FUNCS = {"max", "min", "floor", "ceiling", "ceil", "abs", "mod", "frac", "sum", "prod"}
+EXACT_FUNCS = {"max", "min", "floor", "ceiling", "ceil", "abs", "mod", "frac", "sum", "prod", "re", "im"}
 
 
 class Undefined(Exception):
@@ -261,6 +261,10 @@ def apply_exact(fname, args):
         return apply_op("%", args[0], args[1])
     if f == "frac":
         return args[0] - ffloor(args[0])
+    if f == "re":
+        return args[0]
+    if f == "im":
+        return Fraction(0)
     if f == "sum":
         return sum(args, Fraction(0))
     if f == "prod":
